@@ -474,14 +474,8 @@ func (b *RefinementBuilder) StringPrefixFull(prefix string) *RefinementBuilder {
 	// If we have a known string value then the given prefix must actually
 	// match it.
 	if b.orig.IsKnown() && !b.orig.IsNull() {
-		have := b.orig.AsString()
-		matchLen := len(have)
-		if l := len(prefix); l < matchLen {
-			matchLen = l
-		}
-		have = have[:matchLen]
-		new := prefix[:matchLen]
-		if have != new {
+		// A prefix longer than the known value can never match it.
+		if !strings.HasPrefix(b.orig.AsString(), prefix) {
 			panic("refined prefix is inconsistent with known value")
 		}
 	}
